@@ -55,6 +55,7 @@ Alpha ==
       [] Puzzle = "castle_wall" -> IF N <= 6 THEN <<0, 0, 0, 0, 0, 0, 0, 0, 0, 0, 1100, 1101, 1200, 1201, 1300, 1301, 1400, 1401, 2100, 2201, 2301, 2400, 100, 201, 300, 401, 1000, 2000>>
                                    ELSE <<0, 0, 0, 0, 0, 2000, 1101, 2200, 1300, 2401>>      \* 1000 / 2000: a wall without arrow
       [] Puzzle = "nurikabe" -> <<0, 0, 0, 0, -1, 1, 2, 3, 4>>
+      [] Puzzle \in {"nurikabe_low2", "nurikabe_low3"} -> <<0, 0, 0, 0, -1, -1, 1, 2, 3>>
       [] Puzzle = "akari" -> <<-2, -2, -2, -2, -1, 0, 1, 2>>
       [] Puzzle = "yinyang" -> <<0, 0, 1, 2>>
       [] Puzzle = "creek" -> IF (BH + 1) * (BW + 1) <= 9 THEN <<-1, -1, 0, 1, 2, 3, 4>>
@@ -116,12 +117,14 @@ Solve(p) ==
             [sat |-> S # {}, facts |-> IF S = {} THEN <<>> ELSE BoolFacts(S, Range1(MC)), nsol |-> Cardinality(S)]
 
 (* cell-colouring puzzles: the answer is the set of cells whose key is true *)
-CellPuzzles == {"nurikabe", "norinori", "akari", "starbattle", "yinyang", "creek", "heyawake", "lits", "nurimisaki",
+CellPuzzles == {"nurikabe", "nurikabe_low2", "nurikabe_low3", "norinori", "akari", "starbattle", "yinyang", "creek", "heyawake", "lits", "nurimisaki",
                 "putteria", "aquarium", "gokigen"}
 CellSetsInit == IF Puzzle \in CellPuzzles THEN SUBSET Cells(BH, BW) ELSE {}
 CellSets == pre.cellSets
 CellRule(p, S) ==
     CASE Puzzle = "nurikabe" -> Nurikabe(BH, BW, p, S)
+      [] Puzzle = "nurikabe_low2" -> NurikabeLow(BH, BW, p, S, 2)
+      [] Puzzle = "nurikabe_low3" -> NurikabeLow(BH, BW, p, S, 3)
       [] Puzzle = "norinori" -> Norinori(BH, BW, p[1], S)
       [] Puzzle = "akari" -> Akari(BH, BW, p, S)
       [] Puzzle = "starbattle" -> StarBattle(BH, p[2][1], p[1], S)
